@@ -119,7 +119,8 @@ def dcwin_trace(ctx):
 
 def block_queries(ctx):
     """V: the region-filter queries of the real MarchingCubesFilter / MarchingSquaresFilter (observed by the
-    harness's own filter) are exactly those of BlockPieces' Volume / SplitAxis / Split operators."""
+    harness's own filter) form a recursive decomposition by axis-parallel cuts of accepted blocks; whether the cuts
+    are BlockPieces' own (Volume / SplitAxis / Split) is recorded, not judged."""
     quick = ctx.tier == "quick"
     rpath = os.path.join(ctx.dir, "records-blocks.ndjson")
     spath = os.path.join(ctx.dir, "stats-blocks.json")
@@ -134,6 +135,7 @@ def block_queries(ctx):
     if j.distinct != 2 * stats["records"]:
         raise Infra("block judge examined %d states for %d records" % (j.distinct, stats["records"]))
     rejects = j.tagged("REJECT")
+    other_rule = len([x for x in j.tagged("NOTE") if x[2] == "split-rule"])
     if rejects:
         recs = {r["id"]: r for r in vlib.read_ndjson(rpath)}
         for (_, rid, _l, clause) in rejects:
@@ -149,4 +151,4 @@ def block_queries(ctx):
     ctx.counts["evaluations"] += stats["records"]
     ctx.counts["distinct_nontrivial"] += stats.get("nonempty", 0)
     ctx.stage("V-blocks", kind="V", records=stats["records"], queries=stats["queries"], root_split=stats.get("nonempty", 0),
-              rejected=len(rejects))
+              rejected=len(rejects), runs_cut_differently_from_BlockPieces=other_rule)
